@@ -19,7 +19,7 @@ INext(x, b) == G[x].post[b + 1]
 VARIABLE i
 cvars == <<ctx, sout, i>>
 CInit == Set2Init /\ i = 1
-CNext == \E b \in Bytes : INext(i, b) # 0 /\ Byte2(b) /\ i' = INext(i, b)
+CNext == \E b \in Bytes : G[i].expanded /\ INext(i, b) # 0 /\ Byte2(b) /\ i' = INext(i, b)
 CSpec == CInit /\ [][CNext]_cvars
 
 Conforms ==
